@@ -1,81 +1,140 @@
 import Asts.Model.Status
+import Asts.Spec.Desired
 namespace Asts
 
-/-- the desired set, computed without the helper: scan upward, take the first `r` non-slots -/
-def desiredAux (S : List Int) : Nat → Int → Nat → List Int
-  | 0, _, _ => []
-  | _ + 1, _, 0 => []
-  | fuel + 1, n, need + 1 =>
-    if S.contains n then desiredAux S fuel (n + 1) (need + 1) else n :: desiredAux S fuel (n + 1) need
+/-! Decidable predicates (monitors) for the properties that read one reconcile: C01(d), C03, C04, C05, C07, C12, C14, C15.
+    They are evaluated on *observed* actions — what a recording pod control sees: the verb, the ordinal parsed from the
+    pod's name, the revision label of a created pod, and which pod object of the snapshot a delete was given
+    (`none` = an object this reconcile built itself). The same predicates are what the theorems in `Asts/Props` are about. -/
 
-def desired (r : Int) (S : List Int) : List Int := desiredAux S (r.toNat + S.length + 1) 0 r.toNat
+inductive OAct
+  | create (ord : Int) (rev : String)
+  | delete (ord : Int) (id : Option Nat)
+  | update (ord : Int)
+  deriving DecidableEq, Repr
 
+/-- what the recording pod control observes of a model action -/
+def Action.observe : Action → OAct
+  | .create o r => .create o r
+  | .delete o id _ => .delete o (if id < freshId then some id else none)
+  | .update o => .update o
+
+def observe (acts : List Action) : List OAct := acts.map Action.observe
+
+namespace OAct
+def isCreate : OAct → Bool | .create _ _ => true | _ => false
+def isDelete : OAct → Bool | .delete _ _ => true | _ => false
+def ord : OAct → Int | .create o _ => o | .delete o _ => o | .update o => o
+end OAct
+
+def podById (pods : List Pod) (id : Nat) : Option Pod := pods.find? (·.id == id)
 def podAt (pods : List Pod) (o : Int) : Option Pod := pods.find? (·.ord == o)
 def healthyAt (pods : List Pod) (o : Int) : Bool := (podAt pods o).any Pod.healthy
+/-- pods of the snapshot that are outside the desired set (names that do not parse are not members at all) -/
 def condemnedSpec (D : List Int) (pods : List Pod) : List Pod := pods.filter (fun p => 0 ≤ p.ord && !D.contains p.ord)
-
-def isCreate : Action → Bool | .create _ _ => true | _ => false
-def isDelete : Action → Bool | .delete _ _ _ => true | _ => false
-def actOrd : Action → Int | .create o _ => o | .delete o _ _ => o | .update o => o
-def updDeletes (acts : List Action) : List Int := acts.filterMap fun | .delete o _ .update => some o | _ => none
-def scaleDeletes (acts : List Action) : List Int := acts.filterMap fun | .delete o _ .scaleDown => some o | _ => none
-def createOrds (acts : List Action) : List Int := acts.filterMap fun | .create o _ => some o | _ => none
 
 def partitionOf (v : SetView) : Int := match v.ru with | some (some p) => p | _ => 0
 
-/-- C03. The target of a delete is a pod of the snapshot, or the object this very reconcile created
-    earlier in the list (Parallel + legacy boundary: created at the current revision, taken down again by the update walk). -/
-def C03 (v : SetView) (r : Int) (upd : String) (pods : List Pod) (acts : List Action) : Bool :=
-  let D := desired r v.slots
-  let rec go : List Action → List Action → Bool
-    | _, [] => true
-    | before, a :: rest =>
-      (match a with
-       | .delete o id why =>
-         (match pods.find? (·.id == id) with
-          | some p => p.ord == o && (!D.contains o || p.failed || p.succeeded ||
-              (v.strat != .onDelete && !p.terminating && p.rev != upd && partitionOf v ≤ o))
-          | none => why == .update && v.strat != .onDelete && partitionOf v ≤ o &&
-              before.any (fun b => match b with | .create o' rev => o' == o && rev != upd | _ => false))
-       | _ => true) && go (before ++ [a]) rest
-  go [] acts
+/-- the replica count the CRD guarantees to be present (`replicas` is required and defaulted) -/
+def replicasOf (v : SetView) : Int := v.replicas.getD 0
 
-/-- C04 -/
-def C04 (v : SetView) (r : Int) (pods : List Pod) (acts : List Action) : Bool :=
-  let D := desired r v.slots
-  let rec go : List Action → List Action → Bool
-    | _, [] => true
-    | before, a :: rest =>
-      (match a with
-       | .create o _ =>
-         D.contains o && !v.deleting && !v.slots.contains o &&
-         (match podAt pods o with
-          | none => true
-          | some p => (p.failed || p.succeeded) && before.any (fun b => b == .delete o p.id .replaceFailed))
-       | _ => true) && go (before ++ [a]) rest
-  go [] acts
+def createOrds (acts : List OAct) : List Int := acts.filterMap fun | .create o _ => some o | _ => none
 
-/-- C05 (policy ≠ Parallel) -/
-def C05 (v : SetView) (r : Int) (pods : List Pod) (acts : List Action) : Bool :=
-  let D := desired r v.slots
-  let touched := ((acts.filter (fun a => isCreate a || isDelete a)).map actOrd).eraseDups
+inductive DelClass | scale | replace | update | unknown
+  deriving DecidableEq, Repr
+
+/-- which clause of C03 a delete falls under, judged from the snapshot alone -/
+def classify (D : List Int) (pods : List Pod) : OAct → DelClass
+  | .delete _ (some id) =>
+    match podById pods id with
+    | none => .unknown
+    | some p => if !D.contains p.ord then .scale else if p.failed || p.succeeded then .replace else .update
+  | .delete _ none => .update      -- an object built by this reconcile: only the update walk can reach it
+  | _ => .unknown
+
+def updateDeletes (D : List Int) (pods : List Pod) (acts : List OAct) : List Int :=
+  acts.filterMap fun a => if a.isDelete && classify D pods a == .update then some a.ord else none
+def scaleDeletes (D : List Int) (pods : List Pod) (acts : List OAct) : List Int :=
+  acts.filterMap fun a => if a.isDelete && classify D pods a == .scale then some a.ord else none
+
+def distinctOrds (pods : List Pod) : Bool := ((pods.map (·.ord)).eraseDups).length == pods.length
+
+/-- Snapshots the ordering properties speak about: every pod object carries a phase (the API server stamps `Pending` on
+    create) and no two pods parse to the same ordinal (only a hand-made pod with a non-canonical name such as `web-01`
+    can collide with `web-1`). Outside it "the pod at ordinal i" is ambiguous; C03, C12 and C15 do not need it. -/
+def wfSnapshot (pods : List Pod) : Bool := pods.all Pod.created && distinctOrds pods
+
+/-- C01 (d): the controller creates pods only at desired ordinals -/
+def C01creates (v : SetView) (acts : List OAct) : Bool :=
+  let D := desired (replicasOf v) v.slots
+  (createOrds acts).all D.contains
+
+/-- walk an action list with the prefix before each action and the action after it -/
+def allWithContext (p : List OAct → OAct → Option OAct → Bool) : List OAct → List OAct → Bool
+  | _, [] => true
+  | before, a :: rest => p before a rest.head? && allWithContext p (before ++ [a]) rest
+
+/-- C03: every delete is (a) outside the desired set, (b) a Failed/Succeeded pod that is immediately replaced (or the
+    reconcile stopped right there with an error), or (c) not OnDelete, at or above the partition, revision ≠ update revision.
+    A delete of an object the reconcile itself created earlier in the list is judged by (c) on that create. -/
+def C03 (v : SetView) (upd : String) (pods : List Pod) (acts : List OAct) (outOk : Bool) : Bool :=
+  let D := desired (replicasOf v) v.slots
+  allWithContext (fun before a next =>
+    match a with
+    | .delete o (some id) =>
+      (match podById pods id with
+       | none => false
+       | some p => p.ord == o &&
+          (!D.contains o
+           || ((p.failed || p.succeeded) && (match next with | some (.create o' _) => o' == o | some _ => false | none => !outOk))
+           || (v.strat != .onDelete && partitionOf v ≤ o && p.rev != upd)))
+    | .delete o none =>
+      v.strat != .onDelete && partitionOf v ≤ o &&
+        before.any (fun b => match b with | .create o' rev => o' == o && rev != upd | _ => false)
+    | _ => true) [] acts
+
+/-- C04: every create is at a desired ordinal that is not a listed slot, not for a deleting set, and the ordinal holds no
+    pod in the snapshot or its Failed/Succeeded pod was deleted earlier in the same list. -/
+def C04 (v : SetView) (pods : List Pod) (acts : List OAct) : Bool :=
+  let D := desired (replicasOf v) v.slots
+  allWithContext (fun before a _ =>
+    match a with
+    | .create o _ =>
+      D.contains o && !v.deleting && !v.slots.contains o &&
+      (match podAt pods o with
+       | none => true
+       | some _ => before.any (fun b => match b with
+            | .delete o' (some id) => o' == o && (podById pods id).any (fun p => p.failed || p.succeeded)
+            | _ => false))
+    | _ => true) [] acts
+
+/-- C05 (policy ≠ Parallel): one ordinal per reconcile; creates only with healthy predecessors; scale-in only from the top
+    with every desired pod healthy; update only when nothing is left to scale in and every desired pod is healthy. -/
+def C05 (v : SetView) (pods : List Pod) (acts : List OAct) : Bool :=
+  let D := desired (replicasOf v) v.slots
+  let touched := ((acts.filter (fun a => a.isCreate || a.isDelete)).map OAct.ord).eraseDups
   let cond := condemnedSpec D pods
   touched.length ≤ 1 &&
-  acts.all fun
+  acts.all fun a =>
+    match a with
     | .create o _ => (D.filter (· < o)).all (healthyAt pods)
-    | .delete o id .scaleDown =>
-        D.all (healthyAt pods) && cond.all (fun c => c.ord ≤ o) &&
-        (pods.find? (·.id == id)).any (fun p => !p.terminating)
-    | .delete _ _ .update => cond.isEmpty && D.all (healthyAt pods)
+    | .delete o _ =>
+      (match classify D pods a with
+       | .scale => D.all (healthyAt pods) && cond.all (fun c => c.ord ≤ o)
+       | .update => cond.isEmpty && D.all (healthyAt pods)
+       | _ => true)
     | _ => true
 
-/-- C07 -/
-def C07 (v : SetView) (r : Int) (cur upd : String) (pods : List Pod) (acts : List Action) : Bool :=
-  let D := desired r v.slots
+/-- C07: OnDelete never deletes for revision; under any other strategy at most one update-delete per reconcile, never below
+    the partition, only when every desired pod above it is healthy at the update revision; with a partition present created
+    pods below it carry the current revision and those at or above it the update revision. -/
+def C07 (v : SetView) (cur upd : String) (pods : List Pod) (acts : List OAct) : Bool :=
+  let D := desired (replicasOf v) v.slots
   let p := partitionOf v
-  (if v.strat == .onDelete then (updDeletes acts).isEmpty else true) &&
-  (updDeletes acts).length ≤ 1 &&
-  (updDeletes acts).all (fun o => p ≤ o &&
+  let uds := updateDeletes D pods acts
+  (if v.strat == .onDelete then uds.isEmpty else true) &&
+  uds.length ≤ 1 &&
+  uds.all (fun o => p ≤ o &&
       (D.filter (· > o)).all (fun i => (podAt pods i).any (fun q => q.healthy && q.rev == upd))) &&
   (match v.ru with
    | some (some p) => acts.all fun
@@ -83,24 +142,32 @@ def C07 (v : SetView) (r : Int) (cur upd : String) (pods : List Pod) (acts : Lis
        | _ => true
    | _ => true)
 
-/-- C12, bounds only -/
-def C12 (st : Status) : Bool :=
+/-- C12, bounds of a written status -/
+def C12bounds (st : Status) : Bool :=
   0 ≤ st.ready && st.ready ≤ st.replicas && 0 ≤ st.current && st.current ≤ st.replicas &&
   0 ≤ st.updated && st.updated ≤ st.replicas
 
-/-- C12, completion clause: currentRev moves only to updateRev, and only if every pod seen was at upd, ready, live, and nothing was created or deleted -/
-def C12complete (cur upd : String) (pods : List Pod) (acts : List Action) (written : Status) : Bool :=
+/-- C12, generation: the written status carries the generation that was reconciled (hence is not lower than a stored value
+    that is itself not ahead of the object's generation) -/
+def C12gen (v : SetView) (stored written : Status) : Bool :=
+  written.observedGen == v.generation && (if stored.observedGen ≤ v.generation then stored.observedGen ≤ written.observedGen else true)
+
+/-- C12, completion: currentRevision moves only to updateRevision, and only if every pod seen was at the update revision,
+    healthy, and nothing was created or deleted in that reconcile -/
+def C12complete (cur upd : String) (pods : List Pod) (acts : List OAct) (written : Status) : Bool :=
   written.currentRev == cur ||
   (written.currentRev == upd && pods.all (fun p => p.rev == upd && p.healthy) &&
-   !(acts.any (fun a => isCreate a || isDelete a)))
+   !(acts.any (fun a => a.isCreate || a.isDelete)))
 
-/-- C14 (Parallel, no faults) -/
-def C14 (v : SetView) (r : Int) (pods : List Pod) (acts : List Action) : Bool :=
-  let D := desired r v.slots
+
+/-- C14 (Parallel, fault-free, ended ok): all vacancies (and Failed/Succeeded desired pods) are filled and all live condemned
+    pods deleted in this one reconcile; at most one update-delete. -/
+def C14 (v : SetView) (pods : List Pod) (acts : List OAct) : Bool :=
+  let D := desired (replicasOf v) v.slots
   let want := D.filter (fun o => match podAt pods o with | none => true | some p => p.failed || p.succeeded)
   let cond := (condemnedSpec D pods).filter (fun c => !c.terminating)
   createOrds acts == want &&
-  (scaleDeletes acts).mergeSort == (cond.map (·.ord)).mergeSort &&
-  (updDeletes acts).length ≤ 1
+  (scaleDeletes D pods acts).mergeSort == (cond.map (·.ord)).mergeSort &&
+  (updateDeletes D pods acts).length ≤ 1
 
 end Asts
